@@ -41,31 +41,109 @@ FLOORS = {"C04.if": 3, "C04.signal": 14, "C04.while": 2, "C04.order": 3, "C04.pa
 CONTROL_BC = {"ValueControlBreak", "ValueControlContinue"}
 
 
+def _signal_outcome(loop, eval_suffix, sig):
+    """What the host loop does once `result = <x><eval_suffix>(..)` produced the control signal `sig` (None: an
+    ordinary value): the loop body after that statement is partially evaluated with result.isReturn/isBreak/
+    isContinue decided, and the first host control statement met decides.
+    -> ('leave' | 'stay' | 'continue' | 'unknown', result reassigned before that point, node)"""
+    from ..partial import prune
+    body = loop.body
+    idx = None
+    var = "result"
+    for i, st in enumerate(body):
+        if isinstance(st, ast.Assign) and isinstance(st.value, ast.Call) and norm(st.value.func).endswith(eval_suffix) \
+                and isinstance(st.targets[0], ast.Name):
+            idx = i
+            var = st.targets[0].id
+    if idx is None:
+        return "unknown", False, None
+    known = {f"{var}.{k}()": (k == sig) for k in ("isReturn", "isBreak", "isContinue")}
+    rest, _ = prune(body[idx + 1:], known)
+    altered = False
+
+    def walk(stmts):
+        nonlocal altered
+        for st in stmts:
+            if isinstance(st, ast.Break):
+                return "leave", st
+            if isinstance(st, ast.Continue):
+                return "continue", st
+            if isinstance(st, ast.Return):
+                return "leave", st
+            if isinstance(st, ast.Raise):
+                return "stay", None          # an error on the way is not signal handling; nothing follows it
+            if isinstance(st, ast.Assign) and any(isinstance(t, ast.Name) and t.id == var for t in st.targets):
+                altered = True
+            if isinstance(st, ast.If):
+                a = walk(st.body)
+                b = walk(st.orelse)
+                if a[0] != "stay" or b[0] != "stay":
+                    if a[0] == b[0]:
+                        return a
+                    return "unknown", st
+            elif isinstance(st, (ast.For, ast.While)):
+                if any(isinstance(x, ast.Return) for x in ast.walk(st)):
+                    return "unknown", st
+            elif isinstance(st, (ast.Try, ast.With)):
+                a = walk(st.body)
+                if a[0] != "stay":
+                    return a
+        return "stay", None
+
+    outcome, at = walk(rest)
+    if outcome == "continue":
+        return "continue" if isinstance(loop, ast.While) else "stay", altered, at
+    return outcome, altered, at
+
+
 def run(ctx):
     model = ctx.model
     engine = Engine(model)
     # ---------------------------------------------------------------- if
     ni = model.method(P, "NodeIf", "evaluate")
     loops = [n for n in ni.node.body if isinstance(n, ast.For)]
-    ok = len(loops) == 1 and norm(loops[0].iter) == "range(len(self.conditions))"
+    cond_el, expr_el = set(), set()
+    if len(loops) == 1:
+        it, tg = norm(loops[0].iter), loops[0].target
+        if it == "range(len(self.conditions))" and isinstance(tg, ast.Name):
+            cond_el, expr_el = {f"self.conditions[{tg.id}]"}, {f"self.expressions[{tg.id}]"}
+        elif it == "enumerate(self.conditions)" and isinstance(tg, ast.Tuple) and len(tg.elts) == 2:
+            i_, c_ = [norm(x) for x in tg.elts]
+            cond_el, expr_el = {c_, f"self.conditions[{i_}]"}, {f"self.expressions[{i_}]"}
+        elif it == "zip(self.conditions, self.expressions)" and isinstance(tg, ast.Tuple) and len(tg.elts) == 2:
+            cond_el, expr_el = {norm(tg.elts[0])}, {norm(tg.elts[1])}
+    ok = bool(cond_el)
     ctx.check("C04.if", ni, None, ok, "conditions are not tried in order in one loop", expr="condition loop",
-              site="NodeIf.evaluate: for i in range(len(self.conditions))")
+              site="NodeIf.evaluate: one loop over the conditions, in order, paired with the branches by position")
     if ok:
-        i = norm(loops[0].target)
         t = norm(loops[0])
+        envp = ni.params[1]
         rets = [n for n in ast.walk(loops[0]) if isinstance(n, ast.Return)]
-        ok = f"value = self.conditions[{i}].evaluate(environment)" in t and len(rets) == 1 \
-            and norm(rets[0].value) == f"self.expressions[{i}].evaluate(environment)"
+        vals = [a for a in ast.walk(loops[0]) if isinstance(a, ast.Assign) and isinstance(a.targets[0], ast.Name)
+                and isinstance(a.value, ast.Call) and norm(a.value.func).endswith(".evaluate")
+                and norm(a.value.func.value) in cond_el]
+        v = vals[0].targets[0].id if len(vals) == 1 else None
+        ok = v is not None and len(rets) == 1 and isinstance(rets[0].value, ast.Call) \
+            and norm(rets[0].value.func).endswith(".evaluate") and norm(rets[0].value.func.value) in expr_el \
+            and [norm(a) for a in rets[0].value.args] == [envp]
         par = [n for n in ast.walk(loops[0]) if isinstance(n, ast.If) and rets and rets[0] in n.body]
-        ok = ok and len(par) == 1 and norm(par[0].test) in ("value.isTrue()", "value.value")
+        ok = ok and len(par) == 1 and norm(par[0].test) in (f"{v}.isTrue()", f"{v}.value")
         ctx.check("C04.if", ni, None, ok,
                   "the branch returned is not expressions[i] for the first i whose condition is TRUE",
                   expr="branch by index", site="NodeIf.evaluate: first TRUE condition selects the branch with the same index")
-        ok = norm(ni.node.body[-1]) == "return self.elseExpression.evaluate(environment)" \
+        ok = norm(ni.node.body[-1]) == f"return self.elseExpression.evaluate({envp})" \
             and "elseExpression" not in t
         ctx.check("C04.if", ni, None, ok, "else expression is not evaluated exactly when no condition held",
                   expr="else after loop", site="NodeIf.evaluate: else only after all conditions failed")
-        ok = "if not value.isBoolean(): raise CklRuntimeError(" in t.replace("\n", " ")
+        from ..facts import must_facts as _mf
+        g_ = CFG(ni.node, implicit_exc=False)
+        f_ = _mf(g_)
+        ok = bool(par) and v is not None
+        for node in g_.nodes:
+            if ok and node.kind == "test" and par and node.ast is par[0].test:
+                ok = (f"{v}.isBoolean()", True) in f_.get(node.id, frozenset())
+        ok = ok and any(isinstance(n, ast.If) and norm(n.test) == f"not {v}.isBoolean()" and isinstance(n.body[0], ast.Raise)
+                        and "CklRuntimeError" in norm(n.body[0].exc) for n in ast.walk(loops[0]))
         ctx.check("C04.if", ni, None, ok, "non-boolean condition is not rejected", expr="condition type",
                   site="NodeIf.evaluate: condition must be boolean")
 
@@ -92,17 +170,15 @@ def run(ctx):
             inner = [x for x in ast.walk(lp) if isinstance(x, (ast.For, ast.While)) and x is not lp]
             if not calls or any(c in list(ast.walk(i)) for i in inner for c in calls):
                 continue
-            for test, leaves in (("result.isBreak()", True), ("result.isContinue()", False), ("result.isReturn()", True)):
-                br = [n for n in ast.walk(lp) if isinstance(n, ast.If) and norm(n.test) == test]
-                ok = len(br) == 1
-                if ok:
-                    has_break = any(isinstance(s, ast.Break) for s in br[0].body)
-                    has_cont = any(isinstance(s, ast.Continue) for s in br[0].body)
-                    ok = (has_break == leaves) and not (test == "result.isContinue()" and has_cont and
-                                                        isinstance(lp, ast.While))
-                    if test == "result.isReturn()":
-                        ok = ok and not any(isinstance(s, ast.Assign) for s in br[0].body)
-                ctx.check("C04.signal", m, br[0] if br else lp, ok,
+            for sig, leaves in (("isBreak", True), ("isContinue", False), ("isReturn", True)):
+                outcome, altered, at = _signal_outcome(lp, "self.block.evaluate", sig)
+                ok = outcome == ("leave" if leaves else "stay")
+                if sig == "isReturn":
+                    ok = ok and not altered
+                if sig == "isContinue" and outcome == "continue" and isinstance(lp, ast.While):
+                    ok = False          # a host `continue` would skip whatever follows in the iteration
+                test = f"result.{sig}()"
+                ctx.check("C04.signal", m, at if at is not None else lp, ok,
                           f"{m.qual}: on `{test}` the host loop is {'not left' if leaves else 'left'} "
                           f"(or the signal is altered)", expr=f"{test} in loop over {norm(getattr(lp, 'iter', getattr(lp, 'test', None)))[:40]}",
                           site=f"{m.qual}: {test} -> {'leave' if leaves else 'stay in'} loop "
@@ -111,20 +187,59 @@ def run(ctx):
     lp = [n for n in ast.walk(nb.node) if isinstance(n, ast.For) and norm(n.iter) == "self.expressions"]
     ok = len(lp) == 1
     if ok:
-        t = norm(lp[0]).replace("\n", " ")
-        ok = all(f"if result.{p}(): break" in t for p in ("isReturn", "isBreak", "isContinue")) \
-            and "result = expression.evaluate(environment)" in t
+        for sig in ("isReturn", "isBreak", "isContinue"):
+            outcome, altered, at = _signal_outcome(lp[0], ".evaluate", sig)
+            ok = ok and outcome == "leave" and not altered
+        outcome, altered, at = _signal_outcome(lp[0], ".evaluate", None)
+        ok = ok and outcome == "stay"
     ctx.check("C04.signal", nb, None, ok, "a block does not stop at the first control signal and hand it on",
               expr="block stops at signals", site="NodeBlock.evaluate: stops at return/break/continue with the signal as result")
     ok = norm(nb.node.body[-1]) == "return result"
     ctx.check("C04.signal", nb, None, ok, "block result is not the last evaluated value", expr="block result",
               site="NodeBlock.evaluate: returns the last result")
+    from ..partial import prune
+    from .common import raised_ctors
     for qual in (("FuncLambda", "execute"), ("Interpreter", "interpret")):
         m = model.method(P, *qual)
-        t = norm(m.node).replace("\n", " ")
-        unwrap = "return result.value" in t
-        rej = t.count("raise CklRuntimeError(") >= 2 and "Cannot use break without surrounding loop" in t \
-            and "Cannot use continue without surrounding loop" in t
+
+        def find_rest(stmts):
+            for i, st in enumerate(stmts):
+                if isinstance(st, ast.Assign) and isinstance(st.targets[0], ast.Name) and any(
+                        isinstance(x, ast.Call) and isinstance(x.func, ast.Attribute) and x.func.attr == "evaluate"
+                        for x in ast.walk(st.value)):
+                    return st.targets[0].id, stmts[i + 1:]
+                for fld in ("body", "orelse", "finalbody"):
+                    sub = getattr(st, fld, None)
+                    if isinstance(sub, list) and sub and isinstance(sub[0], ast.stmt):
+                        r = find_rest(sub)
+                        if r:
+                            return r
+            return None
+
+        fr = find_rest(m.node.body)
+        if fr is None:
+            ctx.broken(m.qual, "evaluation of the body / script not found")
+        var, rest = fr
+
+        def first_exit(sig):
+            known_ = {f"{var}.{k}()": (k == sig) for k in ("isReturn", "isBreak", "isContinue")}
+            known_.update({f"isinstance({var}, ValueControl{k[2:]})": (k == sig)
+                           for k in ("isReturn", "isBreak", "isContinue")})
+            stmts, _ = prune(rest, known_)
+            for st in stmts:
+                if isinstance(st, (ast.Return, ast.Raise)):
+                    return st
+                if isinstance(st, (ast.If, ast.For, ast.While, ast.Try, ast.With)):
+                    return None
+            return None
+
+        r = first_exit("isReturn")
+        unwrap = isinstance(r, ast.Return) and r.value is not None and norm(r.value) == f"{var}.value"
+        rej = True
+        for sig in ("isBreak", "isContinue"):
+            r = first_exit(sig)
+            cs = raised_ctors(model, m, r.exc) if isinstance(r, ast.Raise) and r.exc is not None else None
+            rej = rej and bool(cs) and all(norm(c.func) == "CklRuntimeError" for c in cs)
         ctx.check("C04.signal", m, None, unwrap and rej,
                   f"{m.qual} does not unwrap `return` and reject stray break/continue", expr=f"{m.qual} unwrap",
                   site=f"{m.qual}: return unwrapped, stray break/continue rejected")
